@@ -459,7 +459,7 @@ def report():
     muts = json.load(open(os.path.join(WORK, "mutants.json")))
     flt = json.load(open(os.path.join(WORK, "filter.json")))
     res = json.load(open(os.path.join(WORK, "run.json")))
-    tri_path = os.path.join(VERIF, "seeded", "mutscan_triage.json")
+    tri_path = os.path.join(VERIF, "seeded", os.environ.get("MUTSCAN_TRIAGE", "mutscan_triage.json"))
     tri = json.load(open(tri_path)) if os.path.exists(tri_path) else {}
     surv = [m for m in muts if flt.get(m["id"], {}).get("survives_tests")]
     ran = [m for m in surv if m["id"] in res]
@@ -468,7 +468,8 @@ def report():
     missed = [m for m in ran if m not in caught_fi and m not in caught_nofi]
     for m in caught_nofi:
         tri.setdefault(m["id"], "reported without a failing input")
-    out = ["# Systematic mutation scan", "",
+    out = ["# Systematic mutation scan" + (" (sample " + os.environ["MUTSCAN_SAMPLE"] + ")" if os.environ.get("MUTSCAN_SAMPLE") else ""), "",
+           "(run at /repo c8819c2, before the pc_joint fix e180fef: line numbers refer to that commit)", "",
            "`tools/mutscan.py`: standard operators (comparison / arithmetic / Boolean swaps, constants ±1, negated conditions, dropped keyword",
            "arguments, deleted statements) applied to the functions the properties are anchored in and the helpers they call; a mutant counts only",
            "if `import pyrepseq` works and the baseline test outcomes are unchanged; each survivor is run against the quick checks of the",
@@ -497,7 +498,7 @@ def report():
     for m in missed:
         out.append(f"| {m['id']} | {m['file'].replace('pyrepseq/', '')}:{m['line']} `{m['func']}` | `{m['before'][:70]}` → `{m['after'][:70]}` ({m['note']}) | "
                    f"{', '.join(res[m['id']].keys())} | {tri.get(m['id'], 'untriaged')} |")
-    open(os.path.join(VERIF, "seeded", "MUTSCAN.md"), "w").write("\n".join(out) + "\n")
+    open(os.path.join(VERIF, "seeded", os.environ.get("MUTSCAN_REPORT", "MUTSCAN.md")), "w").write("\n".join(out) + "\n")
     print("\n".join(out[6:13]))
 
 
